@@ -125,6 +125,11 @@ func cmdCheck(args []string) int {
 		fmt.Fprintln(os.Stderr, "check: --property required")
 		return 2
 	}
+	if *prop == "C14" {
+		initScratch()
+		defer cleanupScratch()
+		return cmdCheckC14(*repo, *spec, *tier)
+	}
 	start := time.Now()
 	seed, _ := strconv.Atoi(envOr("VERIF_SEED", "0"))
 	initScratch()
@@ -332,6 +337,17 @@ func cmdCheck(args []string) int {
 		rewriteLock(*prop, reports)
 	}
 	var notes []string
+	// bounded stand-ins (labelled bounded, never counted as proved)
+	standinInfo = nil
+	for _, sname := range propertyStandins[*prop] {
+		ok, summary, out := runStandin(*repo, sname, *tier)
+		standinInfo = append(standinInfo, summary)
+		if !ok {
+			body := "obligation: " + *prop + "/standin:" + sname + "\nThe bounded stand-in failed on the real code; the failing input is in the output below.\n" + out
+			p := writeReplayNote("standin_"+sname, body)
+			violate(*prop+"/standin:"+sname, p, false)
+		}
+	}
 	writeEvidence(evPath, *prop, *tier, seed, results, reports, eng, time.Since(start).Seconds(), violations, notes)
 	nP, nAll := 0, 0
 	for _, rep := range reports {
@@ -604,7 +620,7 @@ func writeEvidence(path, prop, tier string, seed int, results []*FnResult, repor
 		"solver_stats":             solverSecs,
 		"optional_overflow_obligations": map[string]int{"generated": nOptional, "discharged": nOptDis},
 		"known_findings":           known,
-		"bounded_standins":         []string{},
+		"bounded_standins":         standinsOrEmpty(),
 		"exhaustive":               false,
 	}
 	if eng != nil {
@@ -620,7 +636,11 @@ func writeEvidence(path, prop, tier string, seed int, results []*FnResult, repor
 		"wall_s":      wall,
 		"violations":  violations,
 	}
-	data, _ := json.MarshalIndent(ev, "", " ")
+	writeJSON(path, ev)
+}
+
+func writeJSON(path string, v interface{}) {
+	data, _ := json.MarshalIndent(v, "", " ")
 	os.WriteFile(path, data, 0644)
 }
 
@@ -642,3 +662,60 @@ func specMarkers(eng *Engine) []string {
 
 // propertyAssumptions: the named assumptions of DESIGN.md section 4 / 6 per property.
 var propertyAssumptions = map[string][]string{}
+
+
+// ---------- bounded stand-ins ----------
+
+var standinInfo []string
+
+func standinsOrEmpty() []string {
+	if standinInfo == nil {
+		return []string{}
+	}
+	return standinInfo
+}
+
+// which properties rest on assumption A1 and therefore also run the bounded stand-in B1
+var propertyStandins = map[string][]string{
+	"C01": {"B1"}, "C02": {"B1"}, "C03": {"B1"}, "C06": {"B1"}, "C07": {"B1"}, "C08": {"B1"},
+}
+
+var standinFiles = map[string]string{"B1": "b1_codec_test.go"}
+
+// runStandin executes a bounded stand-in test on the real code through go test -overlay.
+func runStandin(repo, name, tier string) (bool, string, string) {
+	src := filepath.Join(lockDir(), "standins", standinFiles[name])
+	data, err := os.ReadFile(src)
+	if err != nil {
+		return false, name + ": stand-in file missing", err.Error()
+	}
+	first := strings.SplitN(string(data), "\n", 2)[0]
+	place := strings.TrimSpace(strings.TrimPrefix(first, "// place at:"))
+	m := regexp.MustCompile(`func (Test\w+)\(`).FindStringSubmatch(string(data))
+	if place == "" || m == nil {
+		return false, name + ": malformed stand-in file", ""
+	}
+	dst := filepath.Join(repo, place)
+	ov, _ := json.Marshal(map[string]map[string]string{"Replace": {dst: src}})
+	ovFile := filepath.Join(scratchDir, sanitize(name)+".overlay.json")
+	os.WriteFile(ovFile, ov, 0644)
+	env := "B1_MAXLEN=5 B1_MAXPARSES=200"
+	if tier == "thorough" {
+		env = "B1_MAXLEN=7 B1_MAXPARSES=500"
+	}
+	cmd := exec.Command("bash", "-c", fmt.Sprintf("ulimit -v 8000000; cd %q && %s go test -mod=mod -overlay %q -vet=off -v -count=1 -timeout 900s -run '^%s$' .", filepath.Dir(dst), env, ovFile, m[1]))
+	cmd.Env = append(os.Environ(), "GOFLAGS=-mod=mod", "GOPROXY=off", "GOSUMDB=off", "GOTOOLCHAIN=local")
+	out, _ := cmd.CombinedOutput()
+	o := string(out)
+	summary := name + " (bounded, not a proof): no summary line"
+	for _, l := range strings.Split(o, "\n") {
+		if strings.HasPrefix(l, "STANDIN-") {
+			summary = name + " (bounded stand-in for assumption A1, not counted as proved): " + strings.TrimSpace(l)
+		}
+	}
+	ok := strings.Contains(o, "--- PASS: "+m[1]) && !strings.Contains(o, "--- FAIL")
+	if !ok {
+		summary = name + " FAILED: " + firstLines(o, 6)
+	}
+	return ok, summary, firstLines(o, 40)
+}
